@@ -107,7 +107,112 @@ const (
 	kBadURL   = "badurl"   // rule-list index: the entry of list 2 has an unparsable downloadUrl
 	kDupID    = "dupid"    // rule-list index: a second entry with the id of list 2 and another URL
 	kBadSvcID = "badsvcid" // service index: the entry of service 2 has an invalid id
+
+	// Further shapes of the entry of list 2 in the rule-list index.  A JSON
+	// object that omits a key, or sets it to null, is not the same input as
+	// one with an empty string for code that decodes into reused memory.
+	kNoURL   = "nourl"   // no downloadUrl key at all
+	kNullURL = "nullurl" // "downloadUrl": null
+	kNoKey   = "nokey"   // no filterKey key at all
+	kNullKey = "nullkey" // "filterKey": null
+
+	// kSwap is a fully valid index that lists list 2 before list 1.  It must
+	// behave like kOK.  "swap+<k>" combines the order with an entry shape.
+	kSwap      = "swap"
+	swapPrefix = "swap+"
+
+	// kExtra is a valid index with a third entry (id c13_list_0, sorts first)
+	// whose download answers 404; the round after it the entry is gone again.
+	kExtra = "extra"
+
+	// Further shapes of the entry of service 2 in the blocked-service index.
+	kSvcNoID      = "svcnoid"      // no id key
+	kSvcNullID    = "svcnullid"    // "id": null
+	kSvcNoRules   = "svcnorules"   // no rules key
+	kSvcNullRules = "svcnullrules" // "rules": null
 )
+
+// idxEntryShapes are the shapes of the entry of list 2 that make it unusable.
+var idxEntryShapes = []string{kBadKey, kEmptyURL, kBadURL, kNoURL, kNullURL, kNoKey, kNullKey}
+
+// svcEntryShapes are the deviating shapes of the entry of service 2.
+var svcEntryShapes = []string{kBadSvcID, kSvcNoID, kSvcNullID, kSvcNoRules, kSvcNullRules}
+
+// splitKind splits an index kind into the order of the entries and the shape
+// of the second list's / service's entry.
+func splitKind(kind string) (swapped bool, shape string) {
+	if kind == kSwap {
+		return true, ""
+	}
+	if rest, ok := strings.CutPrefix(kind, swapPrefix); ok {
+		return true, rest
+	}
+
+	return false, kind
+}
+
+// idxURLUnusable reports whether the rule-list index kind leaves the entry of
+// list 2 with a valid id but without a usable URL: list 2 is the affected
+// list and must keep its previous version.
+func idxURLUnusable(kind string) (ok bool) {
+	_, shape := splitKind(kind)
+
+	return shape == kEmptyURL || shape == kBadURL || shape == kNoURL || shape == kNullURL
+}
+
+// idxKeyUnusable reports whether the rule-list index kind leaves the entry of
+// list 2 without a valid id: the entry names no list.
+func idxKeyUnusable(kind string) (ok bool) {
+	_, shape := splitKind(kind)
+
+	return shape == kBadKey || shape == kNoKey || shape == kNullKey
+}
+
+// idxPartlyInvalid reports whether the rule-list index kind is a complete
+// JSON index with exactly one unusable (or duplicated) entry.
+func idxPartlyInvalid(kind string) (ok bool) {
+	return idxURLUnusable(kind) || idxKeyUnusable(kind) || kind == kDupID
+}
+
+// svcIDUnusable reports whether the service index kind has an entry without a
+// valid id (the code then rejects the whole service index).
+func svcIDUnusable(kind string) (ok bool) {
+	_, shape := splitKind(kind)
+
+	return shape == kBadSvcID || shape == kSvcNoID || shape == kSvcNullID
+}
+
+// svcRulesMissing reports whether the entry of service 2 carries no rules.
+func svcRulesMissing(kind string) (ok bool) {
+	_, shape := splitKind(kind)
+
+	return shape == kSvcNoRules || shape == kSvcNullRules
+}
+
+// isIndexShapeKind reports whether kind is a complete 200 answer carrying a
+// well-formed JSON index of some shape (as opposed to a fetch fault or
+// kNotJSON).
+func isIndexShapeKind(pos, kind string) (ok bool) {
+	swapped, shape := splitKind(kind)
+	switch pos {
+	case posIdx:
+		return kind == kDupID || kind == kExtra || (swapped && shape == "") || in2(shape, idxEntryShapes)
+	case posSvc:
+		return (swapped && shape == "") || in2(shape, svcEntryShapes)
+	default:
+		return false
+	}
+}
+
+func in2(s string, set []string) (ok bool) {
+	for _, x := range set {
+		if s == x {
+			return true
+		}
+	}
+
+	return false
+}
 
 // fetchFaults are the kinds after which no complete body was delivered.
 var fetchFaults = []string{kDial, kTimeout, kTimeoutBody, k404, k500, kEmpty, kOversize, kCut, kChunked}
@@ -117,12 +222,33 @@ func kindsFor(pos string) (kinds []string) {
 	kinds = append(kinds, fetchFaults...)
 	switch pos {
 	case posIdx:
-		kinds = append(kinds, kNotJSON, kBadKey, kEmptyURL, kBadURL, kDupID)
+		kinds = append(kinds, kNotJSON, kBadKey, kEmptyURL, kBadURL, kDupID,
+			kNoURL, kSwap, swapPrefix+kNoURL, kExtra,
+			kNullURL, kNoKey, kNullKey, swapPrefix+kNullURL, swapPrefix+kNoKey, swapPrefix+kNullKey)
 	case posSvc:
-		kinds = append(kinds, kNotJSON, kBadSvcID)
+		kinds = append(kinds, kNotJSON, kBadSvcID,
+			kSwap, kSvcNoID, kSvcNullID, swapPrefix+kSvcNoID, kSvcNoRules, kSvcNullRules, swapPrefix+kSvcNoRules)
 	}
 
 	return kinds
+}
+
+// coreKind reports whether a deviation kind takes part in the histories with
+// three deviations (thorough tier).  The near-duplicates of a shape (null
+// instead of a missing key, the swapped variants other than swap+nourl, the
+// service-index shapes added later) are explored with up to two deviations.
+func coreKind(pos, kind string) (ok bool) {
+	if isFetchFault(kind) || kind == kNotJSON {
+		return true
+	}
+	switch pos {
+	case posIdx:
+		return in2(kind, []string{kBadKey, kEmptyURL, kBadURL, kDupID, kNoURL, swapPrefix + kNoURL, kExtra})
+	case posSvc:
+		return kind == kBadSvcID
+	default:
+		return false
+	}
 }
 
 func isFetchFault(kind string) (ok bool) {
@@ -209,25 +335,37 @@ func buildContent(pos string, v int) (body string) {
 
 func urlOf(pos string) (u string) { return "http://" + pos + domain + "/data" }
 
-// indexJSON returns version v of the rule-list index; kind selects the
-// invalid-entry deviation applied to the entry of list 2.
+// indexJSON returns version v of the rule-list index; kind selects the order
+// of the entries and the shape of the entry of list 2.
 func indexJSON(v int, kind string) (body string) {
-	type ent struct {
-		URL string `json:"downloadUrl"`
-		Key string `json:"filterKey"`
-	}
-	e1 := ent{URL: urlOf(posL1), Key: string(idL1)}
-	e2 := ent{URL: urlOf(posL2), Key: string(idL2)}
-	ents := []ent{e1, e2}
-	switch kind {
+	swapped, shape := splitKind(kind)
+	e1 := map[string]any{"downloadUrl": urlOf(posL1), "filterKey": string(idL1)}
+	e2 := map[string]any{"downloadUrl": urlOf(posL2), "filterKey": string(idL2)}
+	switch shape {
 	case kBadKey:
-		ents[1].Key = "c13/list 2"
+		e2["filterKey"] = "c13/list 2"
 	case kEmptyURL:
-		ents[1].URL = ""
+		e2["downloadUrl"] = ""
 	case kBadURL:
-		ents[1].URL = "http://l2" + domain + ":port/%zz"
+		e2["downloadUrl"] = "http://l2" + domain + ":port/%zz"
+	case kNoURL:
+		delete(e2, "downloadUrl")
+	case kNullURL:
+		e2["downloadUrl"] = nil
+	case kNoKey:
+		delete(e2, "filterKey")
+	case kNullKey:
+		e2["filterKey"] = nil
+	}
+	ents := []map[string]any{e1, e2}
+	if swapped {
+		ents = []map[string]any{e2, e1}
+	}
+	switch kind {
 	case kDupID:
-		ents = append(ents, ent{URL: "http://l2" + domain + "/dup", Key: string(idL2)})
+		ents = append(ents, map[string]any{"downloadUrl": "http://l2" + domain + "/dup", "filterKey": string(idL2)})
+	case kExtra:
+		ents = append(ents, map[string]any{"downloadUrl": "http://l0" + domain + "/data", "filterKey": "c13_list_0"})
 	}
 	data, err := json.Marshal(map[string]any{"c13IndexVersion": v, "filters": ents})
 	if err != nil {
@@ -238,19 +376,26 @@ func indexJSON(v int, kind string) (body string) {
 }
 
 // svcJSON returns version v of the blocked-service index; kind selects the
-// invalid-entry deviation applied to the entry of service 2.
+// order of the entries and the shape of the entry of service 2.
 func svcJSON(v int, kind string) (body string) {
-	type svc struct {
-		ID    string   `json:"id"`
-		Name  string   `json:"name"`
-		Rules []string `json:"rules"`
+	swapped, shape := splitKind(kind)
+	e1 := map[string]any{"id": string(idS1), "name": "S1", "rules": ruleLines(lstS1, v)}
+	e2 := map[string]any{"id": string(idS2), "name": "S2", "rules": ruleLines(lstS2, v)}
+	switch shape {
+	case kBadSvcID:
+		e2["id"] = "c13 svc/2"
+	case kSvcNoID:
+		delete(e2, "id")
+	case kSvcNullID:
+		e2["id"] = nil
+	case kSvcNoRules:
+		delete(e2, "rules")
+	case kSvcNullRules:
+		e2["rules"] = nil
 	}
-	svcs := []svc{
-		{ID: string(idS1), Name: "S1", Rules: ruleLines(lstS1, v)},
-		{ID: string(idS2), Name: "S2", Rules: ruleLines(lstS2, v)},
-	}
-	if kind == kBadSvcID {
-		svcs[1].ID = "c13 svc/2"
+	svcs := []map[string]any{e1, e2}
+	if swapped {
+		svcs = []map[string]any{e2, e1}
 	}
 	data, err := json.Marshal(map[string]any{"c13IndexVersion": v, "blocked_services": svcs})
 	if err != nil {
@@ -302,12 +447,15 @@ func buildDelivered(pos string, v int, kind string) (body string) {
 		c := content(pos, v)
 
 		return c[:len(c)/2]
-	case kBadKey, kEmptyURL, kBadURL, kDupID:
-		return indexJSON(v, kind)
-	case kBadSvcID:
-		return svcJSON(v, kind)
 	default:
-		return ""
+		if !isIndexShapeKind(pos, kind) {
+			return ""
+		}
+		if pos == posIdx {
+			return indexJSON(v, kind)
+		}
+
+		return svcJSON(v, kind)
 	}
 }
 
@@ -468,12 +616,13 @@ func rawResponse(pos, path string, v int, kind string) (raw []byte, stall bool) 
 			hdr, h, full[:h], len(full)-h, full[h:h+(len(full)-h)/2])
 
 		return []byte(s), false
-	case kNotJSON, kBadKey, kEmptyURL, kBadURL, kDupID, kBadSvcID:
+	default:
 		d := delivered(pos, v, kind)
+		if d == "" {
+			panic("c13: bad kind " + kind + " at " + pos)
+		}
 
 		return ok(len(d), d), false
-	default:
-		panic("c13: bad kind " + kind)
 	}
 }
 
